@@ -153,14 +153,18 @@ def check(ctx):
         st = after
         if n.kind != 'stmt' or n.frame.func.name == '__init__':
             return st
+        acc = None      # (accumulator field, normal form of its new value): `x += d`, `x = x + d`, `x = d + x` (locals substituted) alike
         if isinstance(a, ast.AugAssign) and is_self_attr(a.target) and a.target.attr in FORMS:
-            start = FORMS[a.target.attr]
-            good = isinstance(a.op, ast.Add) and N.norm(a.value, FrameEnv(n.frame)).is_({'NOW': 1, 'self.' + start: -1}) and before.fields.get(start) == 'S'
-            st = st.with_flag(f'acc:{a.target.attr}' if good else f'ACC-WRONG:{a.target.attr}')
+            acc = a.target.attr, N.norm(ast.BinOp(left=ast.Attribute(value=a.target.value, attr=a.target.attr, ctx=ast.Load()), op=a.op, right=a.value), FrameEnv(n.frame))
+        elif isinstance(a, ast.Assign) and any(is_self_attr(t) and t.attr in FORMS for t in a.targets):
+            acc = [t.attr for t in a.targets if is_self_attr(t) and t.attr in FORMS][0], N.norm(a.value, FrameEnv(n.frame))
+        if acc is not None:
+            fld_, lin_ = acc
+            start = FORMS[fld_]
+            good = lin_.is_({'self.' + fld_: 1, 'NOW': 1, 'self.' + start: -1}) and before.fields.get(start) == 'S'
+            st = st.with_flag(f'acc:{fld_}' if good else f'ACC-WRONG:{fld_}')
             if good:
                 st = st.with_flag('closed:' + start)
-        elif isinstance(a, ast.Assign) and any(is_self_attr(t) and t.attr in FORMS for t in a.targets):
-            st = st.with_flag('ACC-WRONG:' + [t.attr for t in a.targets if is_self_attr(t)][0])
         if isinstance(a, ast.Assign) and any(is_self_attr(t) and t.attr in FORMS.values() for t in a.targets):
             fld = [t.attr for t in a.targets if is_self_attr(t) and t.attr in FORMS.values()][0]
             if isinstance(a.value, ast.Constant) and a.value.value is None:
